@@ -227,6 +227,7 @@ func (c *recCase) markerOf() string {
 }
 
 type recObs struct {
+	saved   string // X-Session-Saved as it reached the client
 	escaped interface{}
 	status  int
 	body    string
@@ -393,6 +394,15 @@ func judgeRec(w *core.W, c *recCase) {
 		})
 	}
 	f.Use(flamego.Recovery())
+	// a session-style middleware behind Recovery: what it registers to run before the response goes out (save the
+	// session, set its cookie) runs once with whatever response does go out - also the one Recovery sends
+	hookRuns := 0
+	f.Use(func(ctx flamego.Context) {
+		ctx.ResponseWriter().Before(func(rw flamego.ResponseWriter) {
+			hookRuns++
+			rw.Header().Add("X-Session-Saved", "1")
+		})
+	})
 	armed := false
 	// A handler that merely returns after something has been written ends the chain
 	// (C03), so the panic site would not be reached: after the first write every
@@ -591,6 +601,7 @@ func judgeRec(w *core.W, c *recCase) {
 			f.ServeHTTP(c15Strict{spy}, req)
 		}()
 		o.status, o.body, o.events = spy.status, string(spy.body), events
+		o.saved = strings.Join(spy.h.Values("X-Session-Saved"), ",")
 		return o
 	}
 	base := serve("/ok")
@@ -611,6 +622,7 @@ func judgeRec(w *core.W, c *recCase) {
 			continue
 		}
 		armed = true
+		hookRuns = 0
 		o := serve(target)
 		armed = false
 		w.Count("panics-injected")
@@ -618,6 +630,13 @@ func judgeRec(w *core.W, c *recCase) {
 			w.Violate("recovery", c, fmt.Sprintf("request %d (%s): %s", k, target, msg))
 			return
 		}
+		// (not judged when another before-function panics: the functions run last-registered first, and the panicking
+		// one - registered later - cuts the run short; "once" then means that run)
+		if !c.Buffer && c.Kind != "before-function-panics" && o.status != 0 && (hookRuns != 1 || o.saved != "1") {
+			w.Violate("recovery", c, fmt.Sprintf("request %d (%s): a function registered with ResponseWriter.Before ahead of the panic ran %d times and its header reached the client as %q (status %d went out: once, \"1\")", k, target, hookRuns, o.saved, o.status))
+			return
+		}
+		w.Count("before-functions-checked-on-the-error-response")
 	}
 	nested := "flat"
 	for _, m := range c.Mid {
